@@ -822,6 +822,24 @@ pub fn run(t: &[&str]) -> String {
                 Ok(OV::Obj(obj)) => v_list(get(&obj, "x_facebook_sources"), &e_fb, ","),
                 _ => "?".into(),
             };
+            // C01 quantifies over every map, also one reached through the setters: after changing / clearing the
+            // source root (which must keep the prefixed-name table in step) the map still round-trips
+            if let DecodedMap::Regular(sm0) = &d1 {
+                let steps: [(&str, Option<&str>); 4] = [("root=x/", Some("x/")), ("root=none", None), ("root=/abs", Some("/abs")), ("root=empty", Some(""))];
+                let mut sm = sm0.clone();
+                for (what, root) in steps {
+                    sm.set_source_root(root);
+                    let dm = DecodedMap::Regular(sm.clone());
+                    let before = obs(&dm);
+                    let after = match encode(&dm).ok().and_then(|b| decode_slice(&b).ok()) {
+                        Some(d) => obs(&d),
+                        None => "unreadable".into(),
+                    };
+                    if before != after {
+                        return format!("err setter-roundtrip-differs {}", what);
+                    }
+                }
+            }
             format!("ok {} {} stable={} reader={} fb={}", obs(&d1), o2, (b1 == b2) as u8, (d2r == o2) as u8, fb)
         }
         "doc.enc" => {
